@@ -21,6 +21,25 @@ LIB_ASSUMPTIONS = [
 
 
 class LibMixin:
+    def expect(self, v, cls, path, node, what="type"):
+        """the value must be of symbolic kind `cls`: other alternatives become safety obligations"""
+        if isinstance(v, cls):
+            return v
+        if isinstance(v, sv.SUnion):
+            keep = []
+            for g, x in v.alts:
+                if isinstance(x, cls):
+                    keep.append((g, x))
+                else:
+                    self.safe(path, what, sv.Not(g), node)
+            if keep:
+                r = keep[-1][1]
+                for g, x in reversed(keep[:-1]):
+                    r = sv.ite(g, x, r)
+                return r
+        self.safe(path, what, z3.BoolVal(False), node)
+        raise Unsupported(f"expected {getattr(cls, '__name__', cls)}, got {v}", node)
+
     # hooks with default "not handled"
     def lib_binop(self, op, a, b, path, node):
         for h in self.hooks.get("binop", ()):
@@ -313,6 +332,16 @@ class LibMixin:
         finally:
             self.silent -= 1
         path.assume(z3.ForAll([j], sv.Implies(sv.And(0 <= j, j < seq.n), c)))
+        d = getattr(seq, "dict_src", None)
+        if d is not None and getattr(d, "ksort", None) is not None:
+            # the same fact per key (a consequence of dict semantics: every key in the domain has a position)
+            kk = z3.Const(sv.uid("mk"), d.ksort)
+            self.silent += 1
+            try:
+                ck = self.compare(op, res, _strip_none(d.val(kk)), path, node)
+            finally:
+                self.silent -= 1
+            path.assume(z3.ForAll([kk], sv.Implies(d.dom(kk), ck)))
         return res
 
     def any_all(self, name, arg, path, node):
@@ -333,6 +362,15 @@ class LibMixin:
         else:
             path.assume(sv.Implies(sv.Not(b), sv.And(0 <= w, w < seq.n, sv.Not(pw))))
             path.assume(sv.Implies(b, z3.ForAll([j], sv.Implies(rng_j, pj))))
+        src = getattr(seq, "key_pred", None)
+        if src is not None:
+            d, pred = src
+            kk = z3.Const(sv.uid("ak"), d.ksort)
+            pk = pred(kk)
+            if name == "any":
+                path.assume(sv.Implies(sv.Not(b), z3.ForAll([kk], sv.Implies(d.dom(kk), sv.Not(pk)))))
+            else:
+                path.assume(sv.Implies(b, z3.ForAll([kk], sv.Implies(d.dom(kk), pk))))
         return sv.SBool(b)
 
     # ------------------------------------------------------------------ external (library) functions
